@@ -1,36 +1,9 @@
 // C07: |Vsct| <= (N-1)/sqrt(N).  The newest value of a sample of k values deviates from the sample mean by at most
 // (k-1)/sqrt(k) sample standard deviations (Samuelson's inequality), and (k-1)/sqrt(k) increases with k <= N.
 // Proved in exact arithmetic from the Welford window characterisation; the f64 effect on flat windows is the open finding C07/vsct.
+use crate::props::c00_centered::*;
 use crate::props::c00_window::*;
 
-pub open spec fn csum(u: Seq<T>, c: real) -> real decreases u.len() { if u.len() == 0 { 0real } else { csum(u.drop_last(), c) + (u.last().v() - c) } }
-pub open spec fn cssq(u: Seq<T>, c: real) -> real decreases u.len() { if u.len() == 0 { 0real } else { cssq(u.drop_last(), c) + (u.last().v() - c) * (u.last().v() - c) } }
-pub proof fn lemma_cs_centered(u: Seq<T>, c: real)
-    ensures csum(u, c) * csum(u, c) <= cssq(u, c) * (u.len() as real), cssq(u, c) >= 0real
-    decreases u.len()
-{
-    if u.len() > 0 {
-        lemma_cs_centered(u.drop_last(), c);
-        let a = u.last().v() - c;
-        lemma_cs_step(csum(u.drop_last(), c), cssq(u.drop_last(), c), u.drop_last().len() as real, a, 1real);
-        assert(a * 1real == a && 1real * 1real == 1real) by(nonlinear_arith);
-        assert(u.len() as real == (u.drop_last().len() as real) + 1real);
-    } else { assert(0real * 0real <= 0real * 0real) by(nonlinear_arith); }
-}
-pub proof fn lemma_centered_sums(u: Seq<T>, c: real)
-    ensures csum(u, c) == sum(u) - (u.len() as real) * c, cssq(u, c) == sumsq(u) - 2real * c * sum(u) + (u.len() as real) * (c * c)
-    decreases u.len()
-{
-    if u.len() > 0 {
-        lemma_centered_sums(u.drop_last(), c);
-        let x = u.last().v(); let k = u.drop_last().len() as real;
-        assert(u.len() as real == k + 1real);
-        assert((k + 1real) * c == k * c + c) by(nonlinear_arith);
-        assert((x - c) * (x - c) == x * x - 2real * c * x + c * c) by(nonlinear_arith);
-        assert(2real * c * (sum(u.drop_last()) + x) == 2real * c * sum(u.drop_last()) + 2real * c * x) by(nonlinear_arith);
-        assert((k + 1real) * (c * c) == k * (c * c) + c * c) by(nonlinear_arith);
-    } else { assert(0real * c == 0real && 0real * (c * c) == 0real && 2real * c * 0real == 0real) by(nonlinear_arith); }
-}
 // n d^2 <= (n-1) * sum of squared deviations, d = deviation of the newest value from the mean
 pub proof fn lemma_samuelson(w: Seq<T>, mean: real)
     requires w.len() >= 2, mean * (w.len() as real) == sum(w)
